@@ -174,6 +174,11 @@ func main() {
 	}
 	tr = vh.Create(os.Args[2])
 	defer tr.Close()
+	if os.Getenv("VERIF_CKORDER") != "" {
+		// C17: order in which checker messages are sent for / dispatched to each transaction
+		trCk = vh.Create(os.Args[2] + ".ck")
+		defer trCk.Close()
+	}
 	core.Exit = func(code int) { // core.Fatal from the code under test: record it, never die silently
 		tr.Emit(vh.E("Fatal", "code", code))
 		tr.Close()
@@ -185,6 +190,9 @@ func main() {
 	for s := 0; s < nscen; s++ {
 		if s > 0 {
 			tr.Reset()
+			if trCk != nil {
+				trCk.Reset()
+			}
 		}
 		a, b := scenario(rnd.Int63(), s)
 		ntran += a
@@ -458,6 +466,9 @@ func gate(point string, kv []any) {
 		if len(kv) > 0 {
 			switch fmt.Sprintf("%T", kv[0]) {
 			case "*db19.ckOutput", "*db19.ckUpdate", "*db19.ckDelete", "*db19.ckRead":
+				if ckSlow {
+					time.Sleep(150 * time.Microsecond) // keep the 8-slot queue full
+				}
 				if stallCk.CompareAndSwap(true, false) {
 					time.Sleep(1500 * time.Microsecond)
 					return
@@ -662,8 +673,17 @@ func colIndex(cols []string, c string) int {
 
 // ---------------------------------------------------------------- hook sink
 
+var trCk *vh.Trace
+var ckSlow = os.Getenv("VERIF_CKSLOW") != ""
+
 func sink(seq int64, ev string, kv []any) {
 	switch ev {
+	case "CkSend", "CkRecv":
+		// client goroutines / the checker goroutine; the trace writer serialises them
+		if trCk != nil {
+			trCk.Emit(vh.E(ev[2:], "t", kv[1].(int), "m", kv[3].(string)))
+		}
+		return
 	case "Commit":
 		ut := kv[1].(*db19.UpdateTran)
 		id, _ := tranIds.Load(ut)
